@@ -12,12 +12,12 @@ import time
 
 VERIF = os.path.dirname(os.path.dirname(os.path.abspath(__file__)))
 REPO = os.environ.get("VERIF_REPO", "/repo")
-HARNESS = os.path.join(VERIF, "harness")
+HARNESS = os.environ.get("VERIF_HARNESS", os.path.join(VERIF, "harness"))   # overridden only by lib/seedeval.sh
 TARGET = os.path.join(HARNESS, "target")
 WORK = os.path.join(TARGET, "work")          # scratch, never under /tmp
 SPEC = os.path.join(VERIF, "spec")
-EVID = os.path.join(VERIF, "evidence")
-REPLAYS = os.path.join(VERIF, "replays")
+EVID = os.environ.get("VERIF_EVID", os.path.join(VERIF, "evidence"))
+REPLAYS = os.environ.get("VERIF_REPLAYS", os.path.join(VERIF, "replays"))
 HEADERS = os.path.join(REPO, "bindgen-tests", "tests", "headers")
 BVDRIVE = os.path.join(TARGET, "debug", "bvdrive")
 BINDGEN = os.path.join(TARGET, "debug", "bindgen")
